@@ -33,7 +33,14 @@ def ini_text_ok(v):
     return isinstance(v, str) and v != "" and v == v.strip() and "\n" not in v and "\r" not in v and "%" not in v
 
 
+def _mkey(name):
+    """model key for an option name: text as it is, anything else tagged (a mapping with mixed-type keys cannot be ordered)"""
+    return name if isinstance(name, str) else "\x00nonstr:%r" % (name,)
+
+
 def ini_name_ok(v):
+    if isinstance(v, str) and v.startswith("\x00nonstr:"):
+        return False
     return ini_text_ok(v) and "=" not in v and ":" not in v and v[0] not in "#;["
 
 
@@ -50,6 +57,8 @@ def product_validity(r, prefix, layered_flag):
     if layered_flag and not isinstance(r.get("is_layered"), bool):
         return INVALID, prefix + ".is_layered:type"
     for f in ("name", "version", "short"):
+        if f == "short" and r[f] == "":
+            continue        # an empty short name is what the library itself gives an unknown family: written as 'short = ', read back ''
         if not ini_text_ok(r[f]):
             return UNSPEC, prefix + ".%s:not-ini-representable" % f
     return VALID, ""
@@ -424,7 +433,15 @@ class TIMachine(FormatMachine):
         if s is None:
             return "noop"
         s.obj.images.images.setdefault(op["platform"], {})[op["name"]] = op["path"]
-        s.model["images"].setdefault(op["platform"], {})[op["name"]] = op["path"]
+        s.model["images"].setdefault(op["platform"], {})[_mkey(op["name"])] = op["path"]
+        return "ok"
+
+    def op_ti_image_name_del(self, op):
+        s = self.slot(op)
+        if s is None or op["platform"] not in s.model["images"]:
+            return "noop"
+        s.obj.images.images[op["platform"]].pop(op["name"], None)
+        s.model["images"][op["platform"]].pop(_mkey(op["name"]), None)
         return "ok"
 
     def op_ti_image_table(self, op):
